@@ -6,6 +6,8 @@ def _b(v):
 
 
 def to_line(c):
+    if c["ep"] == "static":
+        return "C20 static fn=%s" % c["fn"]
     skip = {"ep", "fault", "origin"}
     parts = []
     for k in sorted(c):
